@@ -8,15 +8,19 @@
 -/
 import Hs.Model.FilterText
 import Hs.Lemmas.FilterLoops
+import Hs.Lemmas.FilterTotal
 namespace Hs.C09
 open Hs Hs.FText Hs.FLoops
 
 /-- The property's first sentence at full strength: for every byte string the parser's outcome is
-a filter or an error.  (Proved below: the nesting bound, and that no fuel-independent outcome other
-than `ok`/`err` exists for the formerly crashing inputs.  Not yet proved for all inputs: that the
-fuel `fuelFor n = 8n + 64` always suffices — it needs a "consumes at least one byte per token"
-lemma for every Zinc scalar reader the lexer calls; on this point the claim rests on the
-correspondence runs, where the model's outcome is compared with the implementation's.) -/
+a filter or an error.  Proved below: the nesting bound (`parse_depth_bound`, `parse_depth_step`);
+every byte loop of the lexer and every scalar reader except the numeric one ends with a value or an
+error once the fuel exceeds the unread bytes (`lexer_loops_total`, `scalar_readers_total`); the
+formerly crashing inputs are errors.  Not yet proved for all inputs: the composition inside
+`parse_number_date_time` (its loops are covered, its look-ahead bookkeeping is not), the "at least
+one byte per token" progress of `Lexer::read`, and from it that the parser's fuel
+`fuelFor n = 8n + 64` always suffices; on these points the claim rests on the correspondence runs,
+where the model's outcome is compared with the implementation's on every input. -/
 def C09_parse_total : Prop :=
   ∀ bs : List UInt8,
     filterOfBytes bs ≠ .panic ∧ filterOfBytes bs ≠ .diverge ∧ filterOfBytes bs ≠ .depth
@@ -50,6 +54,43 @@ theorem parse_depth_step (fuel depth : Nat) (l l3 : FLex) (o : Ors)
           all_goals simp at h
       all_goals simp at h
     all_goals simp at h
+
+/-- every byte loop the filter lexer runs — white space, identifiers, Ref/Symbol bodies, decimals,
+units, fractions, zone names, Str and Uri bodies with their escapes — ends with a value or an error
+once the fuel exceeds the unread bytes, for every scanner state and accumulator -/
+theorem lexer_loops_total (fuel : Nat) (s : Scan) (acc : List UInt8) (h : unread s < fuel) :
+    (∃ s', Scan.consumeWhiteSpaces fuel s = .ok s') ∧ (∃ s', Scan.consumeSpaces fuel s = .ok s') ∧
+    (∃ r, Hs.Zinc.literalLoop fuel s acc = .ok r) ∧ (∃ r, Hs.Zinc.refLoop fuel s acc = .ok r) ∧
+    (∃ r, Hs.Zinc.decimalLoop fuel s acc = .ok r) ∧ (∃ r, Hs.Zinc.unitLoop fuel s acc = .ok r) ∧
+    (∃ r, Hs.Zinc.fracLoop fuel s acc = .ok r) ∧ (∃ r, Hs.Zinc.tzNameLoop fuel s acc = .ok r) ∧
+    Fine (Hs.Zinc.strLoop fuel s acc) ∧ Fine (Hs.Zinc.uriLoop fuel s acc) := by
+  obtain ⟨s1, h1, _⟩ := cws_total fuel s h
+  obtain ⟨s2, h2, _⟩ := css_total fuel s h
+  obtain ⟨a3, s3, h3, _⟩ := literalLoop_total fuel s acc h
+  obtain ⟨a4, s4, h4, _⟩ := refLoop_total fuel s acc h
+  obtain ⟨a5, s5, h5, _⟩ := decimalLoop_total fuel s acc h
+  obtain ⟨a6, s6, h6, _⟩ := unitLoop_total fuel s acc h
+  obtain ⟨a7, s7, h7, _⟩ := fracLoop_total fuel s acc h
+  obtain ⟨a8, s8, h8, _⟩ := tzNameLoop_total fuel s acc h
+  exact ⟨⟨s1, h1⟩, ⟨s2, h2⟩, ⟨_, h3⟩, ⟨_, h4⟩, ⟨_, h5⟩, ⟨_, h6⟩, ⟨_, h7⟩, ⟨_, h8⟩,
+    (strLoop_fine fuel s acc h).fine, (uriLoop_fine fuel s acc h).fine⟩
+
+/-- the scalar readers the filter lexer calls for Str, Uri, Ref (with its display name), Symbol and
+identifiers, and the decimal / exponent parts of a number, end with a value or an error and leave
+the scanner no further back than they found it -/
+theorem scalar_readers_total (fuel : Nat) (s : Scan) (h : unread s < fuel) :
+    FineLe s (Hs.Zinc.parseStr fuel s) ∧ FineLe s (Hs.Zinc.parseUri fuel s) ∧ FineLe s (Hs.Zinc.parseRef fuel s) ∧
+    FineLe s (Hs.Zinc.parseSymbol fuel s) ∧ FineLe s (Hs.Zinc.parseId fuel s) ∧
+    FineLe s (Hs.Zinc.parseDecimal fuel s) ∧ FineLe s (Hs.Zinc.parseExponent fuel s) :=
+  ⟨parseStr_fine fuel s h, parseUri_fine fuel s h, parseRef_fine fuel s h, parseSymbol_fine fuel s h,
+   parseId_fine fuel s h, parseDecimal_fine fuel s h, parseExponent_fine fuel s h⟩
+
+/-- the hypothesis is satisfiable with the fuel the model uses: a fresh scanner over `bs` has at most
+`bs.length` unread bytes -/
+theorem unread_make (bs : List UInt8) : unread (Scan.make bs) ≤ bs.length ∧ bs.length < fuelFor bs.length := by
+  constructor
+  · cases bs <;> simp [Scan.make, unread]
+  · simp [fuelFor]; omega
 
 /-- `WildcardEq::eval` terminates against every finite record set, cyclic ref graphs included:
 with fuel above the number of record ids the loop never runs out of fuel. -/
